@@ -313,7 +313,11 @@ int main(void)
 				memset(&pr, 0, sizeof pr);
 				const int saved = ev_on;
 				ev_on = 0;
-				if (lzma_stream_decoder_mt(&strm, &mt) == LZMA_OK)
+				// the abandoned decode may use a different (e.g. larger) thread count than the decode that follows
+				lzma_mt mtpre = mt;
+				const uint32_t prethreads = (uint32_t)strtoul(arg(&l, "prethreads", "0"), NULL, 10);
+				if (prethreads != 0) mtpre.threads = prethreads;
+				if (lzma_stream_decoder_mt(&strm, &mtpre) == LZMA_OK)
 					app_loop(&strm, pdata, plen, ins, outs, slice_seed + 7, fin, atol(arg(&l, "precalls", "3")), maxcalls, prog, 0, &pr);
 				free(pr.out.p); free(pr.info.p);
 				// the input buffer of the abandoned decode must stay valid until the re-initialisation has joined the workers
